@@ -76,7 +76,8 @@ def strip_fstring_strings(seq, version):
     FSTRING_START..END: compare as one STRING at its start position (string not compared)."""
     out = []
     for k, s, l, c in seq:
-        if k == 'STRING' and s is not None and re.match(r'(?i)[rb]*f[rb]*[\'"]', s) and 'b' not in s[:3].lower():
+        m = re.match(r'(?i)([rbfu]*)[\'"]', s) if (k == 'STRING' and s is not None) else None
+        if m and 'f' in m.group(1).lower():
             out.append((k, None, l, c))
         else:
             out.append((k, s, l, c))
@@ -118,6 +119,13 @@ def compare(text, version, vi, ref_result):
         et = [t for t in ptoks if t.type.name in ('ERRORTOKEN', 'ERROR_DEDENT')][0]
         return ('parso-error-token-on-accepted-program', et.type.name), \
             repr([(t.type.name, t.string) for t in ptoks]), (a, None)
+    def nl(seq):
+        # CPython >= 3.12 returns token text with \r and \r\n translated to \n (universal newlines of its input
+        # layer); line ends inside multi-line string tokens are compared modulo that translation
+        return [(k, (s_.replace('\r\n', '\n').replace('\r', '\n') if k == 'STRING' and s_ else s_), l, c)
+                for (k, s_, l, c) in seq]
+    a = nl([tuple(x) for x in a])
+    b = nl(b)
     a2 = strip_fstring_strings([tuple(x) for x in a], version)
     b2 = [x if not (x[0] == 'STRING' and x[1] is not None and any(y[0] == 'STRING' and y[1] is None and y[2:] == x[2:] for y in a2)) else (x[0], None, x[2], x[3]) for x in b]
     if a2 != b2:
@@ -267,7 +275,20 @@ def rule_formfeed_indent(case, sig, extra, match):
     equal CPython's tokens on T with the form feeds of leading whitespace replaced by a space."""
     if not extra or '\f' not in extra[0]:
         return False
-    return explained_by(extra[0], extra[1], [t_formfeed])
+    if explained_by(extra[0], extra[1], [t_formfeed]):
+        return True
+    # together with tabs the one-column reading cannot be emulated with spaces (tab width, C10-F8); then show that
+    # the form feed is the only cause: with CPython's semantics applied by hand (leading whitespace up to the last
+    # form feed of a line dropped) both tokenizers agree on everything but columns
+    text, v = extra[0], extra[1]
+    if not any('\t' in m.group(2) for m in _LINE_START.finditer(text)):
+        return False
+    from parso.utils import parse_version_string
+    t2 = re.sub(r'(\A|\r\n|\r|\n)[ \t\f]*\f', lambda m: m.group(1), text)
+    r2 = _retok(v, t2)
+    if 'err' in r2:
+        return False
+    return compare(t2, v, parse_version_string(v), r2) is None
 
 
 def rule_leading_backslash(case, sig, extra, match):
